@@ -5,7 +5,7 @@
 //!
 //! One case line = one history:
 //!   H? <tables> <tokens> <dcs> <op> <op> ... | <obs step 1> <obs step 2> ...
-//! H? = generator part: Hs scenario, Hx reachable-set exhaustive, Ha short exhaustive alphabet, Hr random over the
+//! H? = generator part: Hs scenario, Hx reachable-set exhaustive, Hm reachable set + maintenance + every insert, Ha short exhaustive alphabet, Hr random over the
 //! 8-point universe, Hi / Hl random over i64 (short / long), Hd random with datacenter-changing recreations
 //! tables  ks.tb,ks.tb            (hex)            watched tables
 //! tokens  t,t,...                (signed hex)     watched tokens
@@ -13,7 +13,7 @@
 //! op      L/<ks>.<tb>/<a>/<b>/<h>.<shard>,.. | -/<known nodes>
 //!         M/<keyspaces>/<removed hosts>/<current nodes>/<recreated nodes>
 //!   node      <host>.<gen>.<dc|n>         keyspace  <ks>:<0|1>:<t+t|->:<v+v|->
-//! obs     <res>~<info flag>~<table>~<table>...    res: a<unresolved> | rWrongTokenRange | rShardNum | m | panic
+//! obs     <res>~<info flag>~<table>~<table>...    res: a | rWrongTokenRange | rShardNum | m | panic
 //!   table   A | <flag>[<tablet>;...]@<lookup>@<lookup>...
 //!   tablet  <first>:<last>:<replicas>:<failed|n>      replica <host>.<gen>.<dc|n>.<shard>
 //!   lookup  n | <first>:<last>:<all>:<dc list>/<dc list>... | =<index of an earlier token of the table with the same answer>
@@ -360,11 +360,15 @@ fn apply(v: &mut VerifTablets, nodes: &mut Nodes, o: &Op) -> Option<String> {
             let payload: HashMap<String, Bytes> =
                 HashMap::from([(PAYLOAD_KEY.to_string(), Bytes::from(payload_bytes(*a, *b, raw)))]);
             let (ksn, tbn) = (format!("ks{:x}", ks), format!("t{:x}", tb));
-            let r = catch(std::panic::AssertUnwindSafe(|| v.learn_from_payload(&ksn, &tbn, &payload, &known)));
+            // the REAL RawTablet::from_custom_payload, then the REAL ClusterState::update_tablets on a cluster
+            // state whose known nodes are `known`
+            let r = catch(std::panic::AssertUnwindSafe(|| {
+                scylla::cluster::verif_update_tablets::update_tablets_from_payload(v, &known, &ksn, &tbn, &payload)
+            }));
             match r {
                 Err(_) => None,
                 Ok(None) => Some("none".into()),
-                Ok(Some(Ok(n))) => Some(format!("a{:x}", n)),
+                Ok(Some(Ok(()))) => Some("a".into()),
                 Ok(Some(Err(e))) => Some(format!("r{}", e)),
             }
         }
@@ -489,6 +493,18 @@ fn gen_exhaustive(out: &mut Out, thorough: bool) -> (usize, usize) {
             let h = Hist { kind: "Hx", tables: vec![(1, 1)], tokens, dcs: vec![0, 1], ops };
             let (o, ranges) = run_hist(&h);
             out.case(&hist_s(&h), &o);
+            lines += 1;
+            // the state AFTER a maintenance call (tablets of node 1 dropped, flags reset) x every insert
+            let mut ops_m = prefix.clone();
+            ops_m.push(maint.clone());
+            ops_m.push(l.clone());
+            let mut tokens_m = Q8.to_vec();
+            if thorough {
+                tokens_m.extend_from_slice(&[99, 100, 101]);
+            }
+            let hm = Hist { kind: "Hm", tables: vec![(1, 1)], tokens: tokens_m, dcs: vec![0, 1], ops: ops_m };
+            let (om, _) = run_hist(&hm);
+            out.case(&hist_s(&hm), &om);
             lines += 1;
             if ranges.len() >= n_pref {
                 let st = ranges[n_pref - 1].clone();
